@@ -17,7 +17,7 @@ from .. import observe as ob
 from . import c05, c11
 
 PROP = "C16"
-RUNS = {"quick": 4000, "thorough": 400000}
+RUNS = {"quick": 4000, "thorough": 150000}
 WALL = {"quick": 280, "thorough": 3500}
 RULE = ("one run = document + scheduled delivery + mutation history; components and counters compared "
         "with the model at every settled step; distinct = distinct (partition, counters) digests")
